@@ -111,6 +111,14 @@ func VH21a_listener() {
 	case 4:
 		verif.Assert(h.attached == 0 && !c1.Closed, lab+"/silent-peer")
 	}
+	// the receive limit is changed while the listener is running (solver variable): connections accepted from now
+	// on carry the new limit (C19: an accepted value takes effect)
+	newMax := verif.Int("new-maxrx")
+	verif.Assume(verif.And(newMax >= 16, newMax <= 1<<20))
+	changeMax := verif.Choice("change-maxrx", 2) == 1
+	if changeMax {
+		verif.Assert(sock.SetOption(mangos.OptionMaxRecvSize, newMax) == nil, "C19/stream-listener/set-maxrx-while-listening")
+	}
 	// a later well-behaved peer is accepted regardless (C12, C16: no delay from the silent one)
 	// unix-domain connections carry the peer's credentials (SO_PEERCRED): three arbitrary, pairwise different ids
 	var cred *syscall.Ucred
@@ -204,7 +212,11 @@ func VH21a_listener() {
 			}
 		}
 		if v, err := p.GetOption(mangos.OptionMaxRecvSize); err == nil {
-			verif.Assert(v.(int) == 1024*1024, "C13/tcp/max-recv-size-inherited")
+			if changeMax {
+				verif.Assert(v.(int) == newMax, "C19/stream-listener/limit-set-while-listening-not-applied-to-new-connections")
+			} else {
+				verif.Assert(v.(int) == 1024*1024, "C13/tcp/max-recv-size-inherited")
+			}
 		} else {
 			verif.Fail("C13/tcp/max-recv-size-option-missing")
 		}
